@@ -148,13 +148,34 @@ func worldRoutes(w *World) {
 		kind := []string{"http", "http", "http", "https", "tcpmux"}[r.Intn(5)]
 		rt := &route{name: fmt.Sprintf("r%d", nextName), kind: kind, host: hosts[r.Intn(len(hosts))], owner: c}
 		nextName++
-		f := M{"proxy_name": rt.name, "proxy_type": kind, "custom_domains": []string{rt.host}}
+		// one proxy may hold several routes: several hosts and, for http, several locations (every combination is a route)
+		rhosts := []string{rt.host}
+		if r.Intn(3) == 0 {
+			for n := r.Range(1, 2); n > 0; n-- {
+				h := hosts[r.Intn(len(hosts))]
+				dupHost := false
+				for _, o := range rhosts {
+					dupHost = dupHost || strings.EqualFold(o, h)
+				}
+				if !dupHost {
+					rhosts = append(rhosts, h)
+				}
+			}
+		}
+		rlocs := []string{""}
+		f := M{"proxy_name": rt.name, "proxy_type": kind, "custom_domains": rhosts}
 		switch kind {
 		case "http":
 			rt.loc = locs[r.Intn(len(locs))]
+			rlocs = []string{rt.loc}
+			if rt.loc != "" && r.Intn(3) == 0 {
+				if l2 := locs[1+r.Intn(len(locs)-1)]; l2 != rt.loc {
+					rlocs = append(rlocs, l2)
+				}
+			}
 			rt.user = rusers[r.Intn(len(rusers))]
 			if rt.loc != "" {
-				f["locations"] = []string{rt.loc}
+				f["locations"] = rlocs
 			}
 			if rt.user != "" {
 				f["route_by_http_user"] = rt.user
@@ -180,25 +201,38 @@ func worldRoutes(w *World) {
 				f["http_user"], f["http_pwd"] = rt.authUser, rt.authPwd
 			}
 		}
+		var rts []*route
+		for _, h := range rhosts {
+			for _, l := range rlocs {
+				cp := *rt
+				cp.host, cp.loc = h, l
+				rts = append(rts, &cp)
+			}
+		}
+		if len(rts) > 1 {
+			w.Probe("routes.multi_route_proxy")
+		}
 		// duplicate (host, location, user) triple?
 		dup := false
 		for _, o := range live {
-			if o.kind == kind && strings.EqualFold(o.host, rt.host) && o.loc == rt.loc && o.user == rt.user {
-				dup = true
+			for _, n := range rts {
+				if o.kind == kind && strings.EqualFold(o.host, n.host) && o.loc == n.loc && o.user == n.user {
+					dup = true
+				}
 			}
 		}
-		hist("%s.reg(%s %s host=%s loc=%q user=%q auth=%v)", c.Name, rt.name, kind, rt.host, rt.loc, rt.user, rt.authUser != "")
+		hist("%s.reg(%s %s hosts=%v locs=%q user=%q auth=%v)", c.Name, rt.name, kind, rhosts, rlocs, rt.user, rt.authUser != "")
 		rr, got := c.register(f)
 		ok := got && mstr(rr, "error") == ""
 		w.Check("C06.duplicate-triple-refused")
 		if dup && ok {
-			viol("C06", "register", "duplicate-route-accepted", "route (%s, %q, %q) of kind %s is already registered and was accepted again; history: %v", rt.host, rt.loc, rt.user, kind, history)
+			viol("C06", "register", "duplicate-route-accepted", "a route among (%v x %q, user %q) of kind %s is already registered and the registration was accepted; history: %v", rhosts, rlocs, rt.user, kind, history)
 		}
 		if !dup && !ok {
-			viol("C06", "register", "free-route-refused", "route (%s, %q, %q) of kind %s is free but was refused: %v; history: %v", rt.host, rt.loc, rt.user, kind, rr, history)
+			viol("C06", "register", "free-route-refused", "routes (%v x %q, user %q) of kind %s are all free but the registration was refused: %v; history: %v", rhosts, rlocs, rt.user, kind, rr, history)
 		}
 		if ok && !dup {
-			live = append(live, rt)
+			live = append(live, rts...)
 		} else if ok {
 			c.CloseProxy(rt.name)
 			syncCtl(c)
@@ -214,7 +248,14 @@ func worldRoutes(w *World) {
 		rt.owner.CloseProxy(rt.name)
 		syncCtl(rt.owner) // acknowledged-ordered: a later message on the same control connection has been answered
 		removedAt[rt.id()] = seenCount(rt.owner, rt.name)
-		live = append(live[:i], live[i+1:]...)
+		// the proxy goes with all its routes
+		kept := live[:0]
+		for _, o := range live {
+			if o.id() != rt.id() {
+				kept = append(kept, o)
+			}
+		}
+		live = kept
 	}
 
 	// keep-alive user connections to the http vhost port
@@ -380,7 +421,7 @@ func worldRoutes(w *World) {
 			viol("C06", "route", "matched-request-not-delivered", "request %s Host %s user %q matches route %s (host %s loc %q user %q) but reached no backend (status %d); history: %v", target, host, reqUser, want.id(), want.host, want.loc, want.user, got.Status, history)
 			return
 		}
-		if sawRoute != want {
+		if sawRoute.id() != want.id() {
 			viol("C06", "route", "wrong-route", "request %s Host %s user %q must go to %s (host %s loc %q user %q) but was served by %s (host %s loc %q user %q); history: %v",
 				target, host, reqUser, want.id(), want.host, want.loc, want.user, sawRoute.id(), sawRoute.host, sawRoute.loc, sawRoute.user, history)
 		}
